@@ -298,3 +298,18 @@ Definition prop_ok (c : case) : bool := prop_gen false false c.
    both together suffice) - used to recognise the known findings, nothing else *)
 Definition classify (c : case) : bool * bool * bool :=
   (prop_gen true false c, prop_gen false true c, prop_gen true true c).
+
+(* diagnostics for replay files: index of the first operation whose check fails and which
+   of (A coherent, B served, C db_errors, D fail_fast, E ttls, F invalidated) hold there *)
+Fixpoint first_fail (c : config) (r : rstate) (ops : list op) (obs : list opobs) (i : Z)
+  : option (Z * list bool) :=
+  match ops, obs with
+  | o :: ops', ob :: obs' =>
+    if check_op c false false r o ob then first_fail c (next c r o ob) ops' obs' (i + 1)
+    else Some (i, [coherent false r o ob; served c r o ob; db_errors r o ob; fail_fast c r o ob;
+                   ttls c false r o ob; invalidated c r o ob])
+  | _, _ => None
+  end.
+
+Definition diagnose (c : case) : option (Z * list bool) :=
+  first_fail (c_cfg c) (mkR (c_rows c) false [] [] true (init (c_rows c))) (c_ops c) (c_obs c) 0.
